@@ -1,7 +1,7 @@
 (* Endpoint.v - model of client::try_parse_pasv_reply (src/client.cpp), client::try_parse_epsv_reply,
    client::make_port_command and client::make_eprt_command.
-   [strict] = true is the code after the three "fix:" commits (uint8 port fields, checked EPSV
-   delimiters, PORT refused for non-IPv4); [strict] = false is the pinned code. *)
+   [strict] = false is the pinned code; the definitions without suffix are the code after the "fix:" commits (227:
+   six 8-bit fields, no empty seventh one; 229: checked delimiters; PORT refused for non-IPv4). *)
 From LibFtp Require Export Bytes Decimal.
 Local Open Scope N_scope.
 
@@ -25,8 +25,34 @@ Definition try_parse_pasv_gen (strict : bool) (s : bytes) : option (bytes * N) :
   | _ => None
   end end end.
 
-Definition try_parse_pasv_reply := try_parse_pasv_gen true.
 Definition try_parse_pasv_reply_pinned := try_parse_pasv_gen false.
+
+(* the code after "fix: validate all six fields of the PASV reply": exactly six fields (split_string drops an empty last
+   field, so "h1,h2,h3,h4,p1,p2," is refused explicitly), each an 8-bit decimal number; the address is rebuilt from the
+   numbers (std::to_string) *)
+Definition dotted (a b c d : N) : bytes :=
+  to_string a ++ [DOT] ++ to_string b ++ [DOT] ++ to_string c ++ [DOT] ++ to_string d.
+
+Definition try_parse_pasv_reply (s : bytes) : option (bytes * N) :=
+  match find_first LPAR s with None => None | Some b =>
+  match find_last RPAR s with None => None | Some e =>
+  if Nat.leb e b then None else
+  let b1 := S b in
+  if Nat.leb e b1 then None else
+  let addr := substr s b1 (e - b1) in
+  match split_string addr COMMA with
+  | [t0; t1; t2; t3; t4; t5] =>
+      if last addr 0 =? COMMA then None else            (* address_string.back() == ',' *)
+      match try_parse_uint8 t0 with None => None | Some h0 =>
+      match try_parse_uint8 t1 with None => None | Some h1 =>
+      match try_parse_uint8 t2 with None => None | Some h2 =>
+      match try_parse_uint8 t3 with None => None | Some h3 =>
+      match try_parse_uint8 t4 with None => None | Some hi =>
+      match try_parse_uint8 t5 with None => None | Some lo =>
+        Some (dotted h0 h1 h2 h3, (hi * 256 + lo) mod 65536)          (* assignment to std::uint16_t *)
+      end end end end end end
+  | _ => None
+  end end end.
 
 (* the text between the parentheses is indexed directly: inner[0..2] are the three leading
    delimiters, the last byte of inner is the closing delimiter, the port is what lies between
@@ -58,9 +84,6 @@ Definition try_parse_epsv_reply_pinned (s : bytes) : option N :=
 (* addresses as the harness / boost hands them over: the textual form comes from
    boost::asio::ip::address::to_string (oracle for IPv6; dotted decimal for IPv4) *)
 Inductive ipaddr := V4 (a b c d : N) | V6 (txt : bytes).
-
-Definition dotted (a b c d : N) : bytes :=
-  to_string a ++ [DOT] ++ to_string b ++ [DOT] ++ to_string c ++ [DOT] ++ to_string d.
 
 Definition addr_text (ip : ipaddr) : bytes :=
   match ip with V4 a b c d => dotted a b c d | V6 t => t end.
